@@ -109,7 +109,7 @@ def run(ctx):
         cases = corpus() + [make_case(rng, i, tier) for i in range(n)]
     for i, c in enumerate(cases):
         c["id"] = i
-    impl_res = ctx["run_impl"](cases, hashseeds, 30)
+    impl_res = ctx["run_impl"](cases, hashseeds, 12)
     ops, verdicts = [], []
     for c in cases:
         fa, fb = qlinalg.epsfree_matrix_form(c["a"]), qlinalg.epsfree_matrix_form(c["b"])
